@@ -216,8 +216,10 @@ def batch_rows(kind):
         return [(0.2, 0.1, 0.1), (0, 0, 0.5), (r0, 0, 0.4), (1.4, -0.6, 0.2), (0.03, 0, 0), (30.0, 10, 5), (0, 0, 0)]
     if kind == "seg":  # (0.3, 0.9, 1.1, -30, 200)
         c, s = np.cos(np.deg2rad(40)), np.sin(np.deg2rad(40))
+        o1, o2 = np.deg2rad(-30 + 180), np.deg2rad(200 - 180)   # exactly opposite the phi1 / phi2 cut planes
         return [(0.6 * c, 0.6 * s, 0.1), (0.9 * c, 0.9 * s, 0.2), (0.6 * c, 0.6 * s, 0.55), (0.3 * c, 0.3 * s, 0.0),
-                (1.4, -0.6, 0.2), (0, 0, 0.3), (0.1, 0.05, 0.9), (2.0, 2.0, 2.0)]
+                (1.4, -0.6, 0.2), (0, 0, 0.3), (0.1, 0.05, 0.9), (2.0, 2.0, 2.0),
+                (1.7 * np.cos(o1), 1.7 * np.sin(o1), 0.4), (1.7 * np.cos(o2), 1.7 * np.sin(o2), 0.4), (-3.0, 0.0, 0.4)]
     if kind == "cub":
         return [(0.1, 0.1, 0.1), (0.6, 0.0, 0.0), (0.6, 0.4, 0.5), (1.4, -0.6, 0.2), (0.6, 0.4, 0.1), (3, 3, 3)]
     if kind == "meshC":
